@@ -439,7 +439,7 @@ class Prog:
                 a = f"a{self.acnt[0]}"
                 tmp, nh, nh2 = self.fresh(), self.fresh(), self.fresh()
                 cfg = {"ty": rng.choice(self.types), "cap": rng.choice([-1, -1, 1]), "strat": rng.choice(["restart", "recreate", "none"]),
-                       "pscr": [Y] * rng.choice([0, 1]), "sscr": [[Y] * rng.choice([0, 1])]}
+                       "pscr": [Y] * rng.choice([0, 1]), "sscr": [[Y] * rng.choice([0, 1]) + ([eff("subscribe", 1)] if rng.random() < 0.3 else [])]}
                 self.ops.append({"op": "spawn", "a": a, "nh": tmp, "cfg": cfg, "entry": "builder_register"})
                 self.ops.append({"op": "register", "h": tmp, "nh": nh, "nh2": nh2})
                 self.h[nh] = "addr"
